@@ -60,6 +60,27 @@ func genDecodeInput(r *Rand, fn string) Doc {
 		"9223372036854775807", "9223372036854775808", "-9223372036854775807", "-9223372036854775808", "-9223372036854775809",
 		"18446744073709551615", "18446744073709551616", "-18446744073709551615", "123456789012345678", "1234567890123456789", "12345678901234567890", "99999999999999999999",
 		"1.0", "1e0", "-0.0", "1e999", "-1e999", "0.5", "1e-400", "00", "-", "+1", "01", "1.", "1e", "0x10"}
+	if fn == "DecodeString" && r.Chance(1, 3) {
+		// string tokens of 10 .. 5 000 content bytes (around 64 and powers of two), plain or with escapes,
+		// intact or with one raw control byte / a missing closing quote somewhere
+		n := []int{10, 63, 64, 65, 127, 128, 200, 1024, 5000}[r.Intn(9)]
+		cfg := &genCfg{esc: r.Pick(3, 1, 1)}
+		var b bytes.Buffer
+		b.WriteByte('"')
+		for b.Len() < n {
+			genStringContent(r, &b, cfg, 8)
+		}
+		b.WriteByte('"')
+		tok := b.Bytes()
+		switch r.Pick(3, 3, 1) {
+		case 1:
+			tok[1+r.Intn(len(tok)-2)] = []byte{0x00, 0x0a, 0x1f, 0x09}[r.Intn(4)]
+			return docOf(tok, "long-string-with-control-byte")
+		case 2:
+			return docCut(r, tok, tok[:r.Range(1, len(tok)-1)], "truncated")
+		}
+		return docOf(tok, "accepted")
+	}
 	if fn != "DecodeString" && fn != "DecodeBool" && r.Chance(1, 3) {
 		s := numPool[r.Intn(len(numPool))]
 		return docOf([]byte([]string{"", " ", "\n"}[r.Intn(3)]+s+[]string{"", ",", " ", "]", "x"}[r.Intn(5)]), "numeric-boundary")
